@@ -37,13 +37,26 @@
 (*   yaml_validate.py:104-161 any source that does not load 2, else 0      *)
 (*   yaml_paths.py:876-944    load 3, unusable expression 1, else 0        *)
 (*                                                                         *)
-(* The delivery of a document (a named file or standard input) appears in  *)
-(* exactly one place: the field `via` of a load event.  LoadStep does not  *)
-(* store it and no other phase can see it, so a run and its twin with the  *)
-(* deliveries exchanged end in the same state (checked in MC_YCli).        *)
+(* A document is delivered in one of three ways: as a named FILE, on       *)
+(* standard input named by the "-" pseudo-file (DASH), or on standard      *)
+(* input with no name at all (IMPLICIT: main() finds no "-" among its      *)
+(* arguments, --nostdin is not given and sys.stdin.isatty() is false -     *)
+(* yaml_get.py:112-115, yaml_set.py:237-240 and 531-538, yaml_merge.py     *)
+(* 537-553, yaml_validate.py:153-159, yaml_paths.py:932-943; yaml-diff     *)
+(* never infers it, yaml_diff.py:41-44).  `Offered` states those tests:    *)
+(* standard input is read at most once; the implicit document is read      *)
+(* after every named source, only while the run has not failed, and it is  *)
+(* the last source; for yaml-get / yaml-set it is the only one; for        *)
+(* yaml-merge it is the left-hand document when no file is named           *)
+(* (StdinOnlyMerge; the design before that repair died there).             *)
+(* The delivery appears in exactly one place: the field `via` of a load    *)
+(* event.  LoadStep keeps of it only `sin` (has standard input been read,  *)
+(* and how), which no other phase reads; so a run and every other way of   *)
+(* delivering the same documents that the tool offers end in the same      *)
+(* state up to `sin` (Core; checked in MC_YCli for all three deliveries).  *)
 (*                                                                         *)
 (* State  s = [tool, o, pc, argsok, valid, nload, badat, stage, lib,       *)
-(*             badexpr, lines, doc, code]                                  *)
+(*             badexpr, lines, doc, code, sin, crash]                      *)
 (*   o       the options the tables read:                                  *)
 (*             must   set: --mustexist | --delete | --saveto               *)
 (*             mode   merge: condense_all | merge_across | matrix_merge    *)
@@ -53,15 +66,20 @@
 (*   lib     [k, n] the library outcome so far                             *)
 (*   lines   result lines on stdout (get: lines, diff: entries,            *)
 (*           validate: report lines, paths: lines)                         *)
+(*   sin     "free" | "dash" | "implicit": how standard input was read     *)
+(*   crash   the run died of an uncaught exception (deviating designs)     *)
 (*   doc     "none" | "written": a result document was delivered (target   *)
 (*           file rewritten, --output file created, or printed)            *)
 (* Events e = [ph |-> "args" | "validate", ok]                             *)
-(*            [ph |-> "load", via |-> "file" | "stdin", ok]                *)
+(*            [ph |-> "load", via |-> "file" | "dash" | "implicit", ok]    *)
 (*            [ph |-> "work", k, res, n]                                   *)
 (*            [ph |-> "output", lines, doc]     [ph |-> "exit", code]      *)
 (***************************************************************************)
 EXTENDS Integers, Sequences, FiniteSets
 
+CONSTANT StdinOnlyMerge   \* TRUE: yaml-merge without a YAML_FILE takes the waiting STDIN document as its left-hand
+                          \* document (yaml_merge.py:544-549).  FALSE names the design before that repair: the document
+                          \* was merged into an empty list and the run died (IndexError) - MC_YCli must refute it.
 CONSTANT Sticky     \* TRUE: the design of the code - a source that failed keeps the run failed (yaml_validate.py:148-151,
                     \* yaml_paths.py:927-930).  FALSE names the deviating design "the status of the last source wins",
                     \* which MC_YCli must refute.
@@ -75,21 +93,33 @@ Lib(k, n) == [k |-> k, n |-> n]
 
 Init0(tool, o) ==
   [tool |-> tool, o |-> o, pc |-> "Args", argsok |-> TRUE, valid |-> TRUE, nload |-> 0, badat |-> 0,
-   stage |-> 0, lib |-> Lib("", 0), badexpr |-> FALSE, lines |-> 0, doc |-> "none", code |-> 0 - 1]
+   stage |-> 0, lib |-> Lib("", 0), badexpr |-> FALSE, lines |-> 0, doc |-> "none", code |-> 0 - 1,
+   sin |-> "free", crash |-> FALSE]
 
 Reject(s) == [s EXCEPT !.pc = "REJECT"]
 ToOutput(s) == [s EXCEPT !.pc = "Output"]
 
 (* ------------------------------------------------------------------ Load *)
-(* The only reader of e.via - and it does not keep it.                     *)
+(* The only reader of e.via.  Of the delivery it keeps `sin` alone.        *)
+Deliveries == {"file", "dash", "implicit"}
+\* may this source be read now, delivered this way?  (the isatty() / "-" / exit_state tests of the main() functions)
+Offered(s, via) ==
+  /\ via \in Deliveries
+  /\ s.sin # "implicit"                                  \* the waiting document is the last source there is
+  /\ via # "file" => s.sin = "free"                      \* standard input is read once
+  /\ via = "implicit" =>
+       /\ s.tool # "diff"                                \* yaml-diff does not infer it
+       /\ s.tool \in {"validate", "paths"} => (s.badat = 0 /\ ~s.badexpr)     \* `exit_state == 0 and not consumed_stdin`
 LoadStep(s, e) ==
   LET n == s.nload + 1
       forgets == ~Sticky /\ s.tool \in {"validate", "paths"}
-      t == [s EXCEPT !.nload = n,
+      t == [s EXCEPT !.nload = n, !.sin = IF e.via = "file" THEN s.sin ELSE e.via,
                      !.badat = IF ~e.ok THEN (IF s.badat = 0 \/ forgets THEN n ELSE s.badat)
                                ELSE (IF forgets THEN 0 ELSE s.badat)]
   IN
-  IF e.via \notin {"file", "stdin"} THEN Reject(s)
+  IF ~Offered(s, e.via) THEN Reject(s)
+  ELSE IF s.tool = "merge" /\ e.via = "implicit" /\ n = 1 /\ ~StdinOnlyMerge THEN
+    ToOutput([t EXCEPT !.crash = TRUE])                  \* merge_condense_all(lhs_docs = []) : lhs_docs[0] raises
   ELSE IF s.tool \in {"get", "set"} THEN             \* one document; unreadable => abend
     (IF s.nload # 0 THEN Reject(s) ELSE IF e.ok THEN [t EXCEPT !.pc = "Work"] ELSE ToOutput(t))
   ELSE IF s.tool = "diff" THEN                       \* both sides are read before either is judged
@@ -137,7 +167,7 @@ WorkStep(s, e) ==
 
 (* ---------------------------------------------------------------- tables *)
 Loaded(s) == s.argsok /\ s.valid /\ s.badat = 0
-Failed(s) == \/ ~Loaded(s)
+Failed(s) == \/ ~Loaded(s) \/ s.crash
              \/ s.lib.k \in {"unmatched", "yperr", "eyamlerr", "nodoc", "checkfail", "mergeerr", "needindex"}
              \/ s.badexpr
 MergeCode(mode, k) ==
@@ -147,7 +177,8 @@ MergeCode(mode, k) ==
 
 \* the set of exit codes main() can end with in state s (a singleton except where two failures compete)
 Codes(s) ==
-  IF ~s.argsok THEN {2}
+  IF s.crash THEN {1}                  \* an uncaught exception ends the interpreter with 1
+  ELSE IF ~s.argsok THEN {2}
   ELSE IF ~s.valid THEN {1}
   ELSE IF s.tool = "get" THEN
     (IF s.badat # 0 THEN {1} ELSE IF s.lib.k = "eyamlerr" THEN {2}
@@ -207,9 +238,13 @@ RunFrom(s, tr, i) ==
        IF n.pc = "REJECT" THEN [ok |-> FALSE, at |-> i, s |-> s] ELSE RunFrom(n, tr, i + 1)
 Run(tool, o, tr) == RunFrom(Init0(tool, o), tr, 1)
 
-\* the run with every delivery exchanged
-Swap(via) == IF via = "file" THEN "stdin" ELSE "file"
-Twin(tr) == [i \in 1..Len(tr) |-> IF tr[i].ph = "load" THEN [tr[i] EXCEPT !.via = Swap(@)] ELSE tr[i]]
+\* what a run is about, whatever the way its documents arrived
+Core(s) == [s EXCEPT !.sin = "free"]
+\* the same run with its documents delivered differently: vs[j] is the delivery of the j-th source
+LoadsBefore(tr, i) == Len(SelectSeq(SubSeq(tr, 1, i), LAMBDA e : e.ph = "load"))
+Redeliver(tr, vs) == [i \in 1..Len(tr) |-> IF tr[i].ph = "load" THEN [tr[i] EXCEPT !.via = vs[LoadsBefore(tr, i)]] ELSE tr[i]]
+NLoads(tr) == LoadsBefore(tr, Len(tr))
+AllFile(tr) == Redeliver(tr, [j \in 1..NLoads(tr) |-> "file"])
 
 (* ------------------------------------------------- the statements of C16 *)
 \* (each is evaluated on finished runs; MC_YCli checks them in every reachable Done state)
